@@ -1046,14 +1046,18 @@ inductive MatchRes where
   | matched (parsed : Value) (internalErrors : Nat)
   deriving DecidableEq
 
+/-- `self.captures.at(idx).unwrap_or("")`: the text of an engine group (empty if it did not participate). -/
+def capText (caps : List (Str × Option Str)) (cap : Str) : Str :=
+  match caps.find? (fun kv => kv.1 = cap) with
+  | some (_, some t) => t
+  | _ => []
+
 /-- the loop over `matches.iter()` (names in `BTreeMap` order). -/
 def applyCaptures (P : Prims) (fields : List (Nat × Field))
     (caps : List (Str × Option Str)) : List (Str × Str) → Value → Nat → Out (Value × Nat)
   | [], parsed, n => .ok (parsed, n)
   | (name, cap) :: rest, parsed, n =>
-    let text : Str := match caps.find? (fun kv => kv.1 = cap) with
-      | some (_, some t) => t
-      | _ => []
+    let text : Str := capText caps cap
     if text.isEmpty then applyCaptures P fields caps rest parsed n
     else
       match (grokIndex name).bind (lookupField fields) with
